@@ -4,9 +4,13 @@ Theorems: lean/Goat/Props/C14.lean about lean/Goat/Model/Pipeline.lean (runner, 
 completion latch, manager Wait, nested submissions), for all graphs and all schedules, plus the
 trace monitor `accepts` (sound and complete for the declarative trace property; every model run
 accepted).  Tie to /repo: harness/cmd/pipeline runs generated task graphs on a real app and the
-recorded event traces go through the compiled monitor (m_pipeline).  PARTIAL level: the tie is
-trace conformance, sampled.
+recorded event traces go through the compiled monitor (m_pipeline); and a STRUCTURAL tie: harness/cmd/pipefacts
+(go/ast) regenerates lean/Goat/Tie/ExtractedPipeC14.lean on every run and the theorems tie_* of
+lean/Goat/Tie/PipeC14.lean compare the skeletons of runGo, waitForTasks, Create, Wait, Task.Close, RunLoop … with
+what the model's steps assume (checks/pipe_tie.py).  PARTIAL level: the structural tie is syntactic and the
+behavioural tie is trace conformance, sampled.
 """
+import pipe_tie
 import pipeline_common as pc
 
 META = dict(
@@ -18,18 +22,35 @@ META = dict(
              "manager_error_iff_some_failed, reject_leaves_latch (pre-fix model never returns from Wait), and a trace monitor "
              "proved to decide exactly the declarative property (accepts_iff) that every model run has (model_runs_accepted). "
              "PARTIAL: that the running system realises the model is sampled by putting the event traces of a real app "
-             "(random DAGs, gated overlapping bodies, nested submissions) through the monitor, not proved.",
+             "(random DAGs, gated overlapping bodies, nested submissions) through the monitor, not proved. "
+             "In addition a structural tie (go/ast, syntactic): theorems tie_* of Goat/Tie/PipeC14.lean fail by name when "
+             "the skeleton of the code moves away from what the model's steps assume: tie_run_creates_then_spawns, "
+             "tie_rungo_order (defer task.Close first; waitForTasks and its error return before SharedMutex.Lock; Lock + "
+             "deferred Unlock before sandbox.Run; errors appended; then scope Wait), tie_waitfortasks_loop, "
+             "tie_create_validates_then_registers / tie_create_error_paths_forget (sign-on to the parent scope first, "
+             "duplicate refused, wait list validated against existing tasks, entry deleted on every error path after "
+             "insertion, manager wait group armed once), tie_task_scope_shares_context, tie_manager_wait, "
+             "tie_task_wait_close, tie_runloop_stops_at_first_failure, tie_runcommand_scope, tie_piprun_submission, "
+             "tie_task_scope_label (the SID label the harness maps scopes to tasks by).",
         design_ref="DESIGN.md 3 C14"),
     level_note="Partial. Trusted: Lean kernel (axioms propext/Classical.choice/Quot.sound), the hand-written orchestration model, "
                "the Go harness (event recorder, scope-SID to task mapping, gate controller), sync.WaitGroup/select semantics as "
-               "modelled; lock maps empty (C15). Trace conformance is sampled: interleavings are the Go scheduler's.",
+               "modelled; lock maps empty (C15). Trace conformance is sampled: interleavings are the Go scheduler's. "
+               + pipe_tie.META_NOTE % ("C14", "C14", "Runner.Run/runGo/waitForTasks, TaskManager.Create/validWaitList/"
+                                       "doneTask/Wait/Get, Task.Close/Wait, termexec.RunLoop/RunCommand, pipc.Run, "
+                                       "scope.NewChild/AddTasks/DoneTask/Wait"),
     technique="Lean 4 proof (invariant of a labelled transition system, well-founded waits-for order, termination measure) "
-              "+ verified trace monitor on recorded executions of the real pipeline runner",
+              "+ verified trace monitor on recorded executions of the real pipeline runner "
+              "+ structural tie (go/ast normal forms of the modelled functions compared with the model's assumptions by Lean `decide`/`rfl`)",
 )
 
 
 def run(ctx):
-    pc.run_family(ctx, "C14", "c14", 4000, 300000, ["C14", "C16"])
+    try:
+        pc.run_family(ctx, "C14", "c14", 4000, 300000, ["C14", "C16"],
+                      obligations=pipe_tie.obligations, tie_modules=[pipe_tie.tie_module(ctx)])
+    finally:
+        pipe_tie.restore(ctx)   # a run against a scratch worktree leaves the extracted facts of /repo behind
 
 
 def replay(ctx, path):
